@@ -16,7 +16,7 @@ from translator import aldi as tr
 ID = "C02"
 PROPS = "props/C02.v"
 GENERATED = [tr.OUT, tr.OUT_FD]
-CASE_DEPS = ["lib/Dual.vo", "model/AldiTree.vo", "model/AldiMaps.vo"]
+CASE_DEPS = ["lib/Dual.vo", "model/AldiTree.vo", "model/AldiMaps.vo", "model/AldiSelect.vo"]
 CORR_WITHOUT_PROOFS = True      # the executable model does not depend on the proofs: a broken rule lemma still lets model vs code be compared
 ALLOWED_AXIOMS = {
     "sig_forall_dec", "sig_not_dec", "functional_extensionality_dep", "classic",
@@ -861,6 +861,68 @@ def corr_steady(ctx, res: CorrResult, models):
     return len(nontrivial)
 
 
+def corr_steady_plans(ctx, res: CorrResult, models):
+    """steady plans fixing subsets of levels / changes: the reduced Jacobian eval_jacob returns vs the model's column
+    selection (masks built by the model from the plan's two lists) applied to the full Jacobian of the same evaluator;
+    also the integer index vector [positions of levels | n + positions of changes]. Compared bit-exactly."""
+    rng = ctx.rng
+    cases, texts = [], []
+    pool = [mm for mm in models if not mm.spec.get("flat") and len(mm.spec["xs"]) + len(mm.spec["ys"]) >= 2
+            and mm.spec.get("special") not in REJECTED_SNIPPETS]
+    try:
+        wm = build_model(STEADY_WITNESS)
+        pool = [SimpleNamespace(spec=STEADY_WITNESS, m=wm, info=None)] * ctx.scale(6, 40) + pool
+    except Exception:  # noqa
+        pass
+    for mm in pool[: ctx.scale(60, 1500)]:
+        m = mm.m.copy()
+        plan_spec = gen_steady_plan_spec(rng, mm.spec["xs"], mm.spec["ys"])
+        try:
+            ev = capture_steady(m, plan=build_steady_plan(m, plan_spec))
+        except Exception:  # noqa
+            res.distribution["steady_plan_setup_failed"] = res.distribution.get("steady_plan_setup_failed", 0) + 1
+            continue
+        if ev is None or type(ev).__name__.startswith("Flat"):
+            continue
+        try:
+            g = np.array(ev.get_init_guess(), dtype=float)
+            with quiet():
+                red = np.array(ev.eval_jacob(g), dtype=float)
+                full = np.array(ev._jacobian.eval(ev._steady_array, ev._column_offset), dtype=float)
+        except Exception:  # noqa
+            continue
+        if not (np.all(np.isfinite(red)) and np.all(np.isfinite(full))) or red.ndim != 2 or full.ndim != 2:
+            continue
+        n2q = m.create_name_to_qid()
+        names = list(mm.spec["xs"]) + list(mm.spec["ys"])
+        wrt = [int(q) for q in ev.wrt_qids]
+        levels = [n2q[n] for n in names if n not in plan_spec["fix_level"] and n2q[n] in wrt]
+        changes = [n2q[n] for n in names if n not in plan_spec["fix_change"] and n2q[n] in wrt]
+        zl = lambda l: coq_list([coq_z(q) for q in l])  # noqa
+        cases.append({"source": spec_source(mm.spec), "values": mm.spec["values"], "steady_plan": plan_spec})
+        texts.append(f"  (({zl(wrt)}, {zl(levels)}, {zl(changes)}, {coq_mat(full)}),\n   {coq_mat(red)})")
+    per = 40
+    shards = []
+    for i in range(0, len(texts), per):
+        lines = [HEADER, "From Verif Require Import model.AldiSelect.",
+                 "Definition cases : list ((list Z * list Z * list Z * list (list float)) * list (list float)) := [",
+                 ";\n".join(texts[i:i + per]), "].",
+                 "Definition same (a : list Z * list Z * list Z * list (list float)) (b : list (list float)) : bool :=\n"
+                 "  let '(wrt, lv, ch, full) := a in\n"
+                 "  let ml := mask_of wrt lv in let mc := mask_of wrt ch in\n"
+                 "  mat_eqb true (reduce_jacobian ml mc full) b &&\n"
+                 "  mat_eqb true (map (fun row => gather (column_index ml mc (List.length wrt)) row 0%float) full) b.",
+                 "Eval vm_compute in (failing_idx same cases 0)."]
+        shards.append(("\n".join(lines) + "\n", cases[i:i + per]))
+    run_shards(ctx, res, "steady_plan", shards)
+    res.evaluations += len(cases)
+    res.distribution["steady_plan_cases"] = len(cases)
+    res.distribution["steady_plan_fixed_levels"] = sum(1 for c in cases if c["steady_plan"]["fix_level"])
+    if cases:
+        res.samples.append(cases[0])
+    return len({(c["source"], repr(c["steady_plan"])) for c in cases})
+
+
 # ---- stacked time -----------------------------------------------------------------------
 
 def build_plan(m, span, start, plan_spec):
@@ -1054,6 +1116,7 @@ def correspondence(ctx) -> CorrResult:
     phase("systemize", lambda: corr_systemize(ctx, res, models))
     phase("steady", lambda: corr_steady(ctx, res, models[: ctx.scale(150, 3000)]))
     phase("stacked", lambda: corr_stacked(ctx, res, models[: ctx.scale(120, 2500)]))
+    phase("steady_plan", lambda: corr_steady_plans(ctx, res, models))
     res.distinct_nontrivial = nt
     res.distribution["models_generated"] = len(models)
     res.distribution["log_variable_models"] = sum(1 for mm in models if mm.spec["logs"])
@@ -1212,17 +1275,52 @@ def _culprit(t) -> str:
     return "+".join(sorted(acc)) or "arith"
 
 
-def falsify_steady(mm, fails, info_counts):
+def build_steady_plan(m, plan_spec):
+    """plan_spec: {"fix_level": [names], "fix_change": [names]} through the public SteadyPlan methods"""
+    import irispie as ir
+    plan = ir.SteadyPlan(m)
+    if plan_spec.get("fix_level"):
+        plan.fix_level(tuple(plan_spec["fix_level"]))
+    if plan_spec.get("fix_change"):
+        plan.fix_change(tuple(plan_spec["fix_change"]))
+    return plan
+
+
+def gen_steady_plan_spec(rng, xs, ys=()) -> dict:
+    """a random steady plan: any subset of the levels and - independently - of the changes is fixed (asymmetric on
+    purpose: the unknown vector is [iterated levels | iterated changes], the full Jacobian [all levels | all changes])"""
+    names = list(xs) + list(ys)
+    while True:
+        fl = [n for n in names if rng.random() < 0.45]
+        fc = [n for n in names if rng.random() < 0.35]
+        if (fl or fc) and (len(fl) < len(names) or len(fc) < len(names)):
+            return {"fix_level": fl, "fix_change": fc}
+
+
+def _plan_tag(plan_spec) -> str:
+    if not plan_spec:
+        return ""
+    return ":plan[" + ("L" if plan_spec.get("fix_level") else "") + ("C" if plan_spec.get("fix_change") else "") + "]"
+
+
+def falsify_steady(mm, fails, info_counts, plan_spec=None):
     if mm.spec.get("special") in REJECTED_SNIPPETS:
         return
     m = mm.m.copy()
     try:
-        ev = capture_steady(m)
-    except Exception:  # noqa
+        kw = {"plan": build_steady_plan(m, plan_spec)} if plan_spec else {}
+        ev = capture_steady(m, **kw)
+    except Exception as e:  # noqa
+        if plan_spec:
+            info_counts["steady_plan_setup_failed"] = info_counts.get("steady_plan_setup_failed", 0) + 1
         return
     if ev is None:
         return
+    if plan_spec:
+        info_counts["steady_with_plan"] = info_counts.get("steady_with_plan", 0) + 1
     g = np.array(ev.get_init_guess(), dtype=float)
+    if g.size == 0:
+        return
 
     def F(q):
         with quiet():
@@ -1261,16 +1359,21 @@ def falsify_steady(mm, fails, info_counts):
         kind = "flat" if type(ev).__name__.startswith("Flat") else "nonflat"
         block = "t" if r < len(eqs) else "t+k"
         fails.append(Failure(
-            f"steady:{kind}:{block}:{_culprit(opaque_tree(eqs[r % len(eqs)].xtring))}",
-            f"steady Jacobian ({kind}) entry [{r},{c}] (residual block {block}) is not the derivative of eval_func",
+            f"steady:{kind}{_plan_tag(plan_spec)}:{block}:{_culprit(opaque_tree(eqs[r % len(eqs)].xtring))}",
+            f"steady Jacobian ({kind}{', steady plan ' + str(plan_spec) if plan_spec else ''}) entry [{r},{c}] "
+            f"(residual block {block}; unknown {c} of [iterated levels | iterated changes]) is not the derivative of eval_func",
             dict({"source": spec_source(mm.spec), "assign": mm.spec["values"], "flat": mm.spec["flat"]},
+                 **({"steady_plan": plan_spec} if plan_spec else {}),
                  **({"context_src": mm.spec["context_src"]} if mm.spec.get("context_src") else {})),
             float(J[r, c]), float(W[r, c]),
-            "m = irispie.Simultaneous.from_string(source, flat=flat); m.assign(**assign); m.steady(split_into_blocks=False) "
+            "m = irispie.Simultaneous.from_string(source, flat=flat); m.assign(**assign); p = irispie.SteadyPlan(m); "
+            "p.fix_level(steady_plan['fix_level']); p.fix_change(steady_plan['fix_change']); "
+            "m.steady(split_into_blocks=False, plan=p) "
             "-> SteadyEvaluator.eval_jacob(init) vs central differences of eval_func"))
 
 
-def falsify_stacked(mm, rng, fails, info_counts, force_terminal=None, plan_spec=None, nper=None):
+def falsify_stacked(mm, rng, fails, info_counts, force_terminal=None, plan_spec=None, nper=None, point_shifts=None,
+                    data_seed=None):
     """plan_spec: None = no plan, "random" = draw one, or an explicit list (replay)"""
     if mm.spec.get("special") in REJECTED_SNIPPETS:
         return
@@ -1293,8 +1396,11 @@ def falsify_stacked(mm, rng, fails, info_counts, force_terminal=None, plan_spec=
             m = mm.m.copy()
     if plan_spec == "random":
         plan_spec = gen_plan_spec(rng, mm.spec, nper)
+    if data_seed is None:
+        data_seed = rng.randrange(2 ** 31)
+    import random as _random
     try:
-        cap = capture_stacked(m, mm.spec, rng, nper, terminal, plan_spec or None)
+        cap = capture_stacked(m, mm.spec, _random.Random(data_seed), nper, terminal, plan_spec or None)
     except Exception as e:  # noqa
         if plan_spec:
             info_counts["plan_setup_failed"] = info_counts.get("plan_setup_failed", 0) + 1
@@ -1306,59 +1412,88 @@ def falsify_stacked(mm, rng, fails, info_counts, force_terminal=None, plan_spec=
         return
     if plan_spec:
         info_counts["stacked_with_plan"] = info_counts.get("stacked_with_plan", 0) + 1
-    g = cap["init_guess"]
+    g0 = cap["init_guess"]
     data = cap["data"]
 
     def F(q):
         with quiet():
             return np.array(cap["eval_func"](np.array(q, dtype=float), data), dtype=float).ravel()
-    try:
-        f0 = F(g)
-        with quiet():
-            J = np.array(cap["eval_jacob"](g, data).toarray(), dtype=float)
-    except Exception:  # noqa
-        return
-    if not np.all(np.isfinite(f0)) or not np.all(np.isfinite(J)):
-        return
     info = mm.info
     base = -info["min_shift"]
-    try:
-        arr = np.array(data, dtype=float)
-        for eid in info["teids"]:
-            t = info["trees"][eid]
-            if t == ("user",):
-                continue
-            toks = tree_vars(t)
-            for c in range(base, base + nper):
-                num_eval(t, {(q, s): float(arr[q, s + c]) for (q, s) in toks}, margin=0.08)
-    except (Inadmissible, IndexError, OverflowError, ZeroDivisionError, ValueError):
-        return
-    W = np.zeros_like(J)
-    for i in range(len(g)):
-        h = 1e-6 * max(1.0, abs(g[i]))
-        gp = g.copy(); gp[i] += h; gm = g.copy(); gm[i] -= h
-        W[:, i] = (F(gp) - F(gm)) / (2 * h)
-    F(g)
-    info_counts["stacked_models"] += 1
-    info_counts["cells"] += J.size
-    if not _fd_close(J, W):
-        r, c = np.unravel_index(int(np.argmax(np.abs(J - W))), J.shape)
-        neq = len(info["teids"])
-        eid = info["teids"][r % neq]
-        fails.append(Failure(
-            f"stacked:{terminal}{':plan' if plan_spec else ''}:{_culprit(info['trees'][eid])}",
-            f"stacked-time Jacobian entry [{r},{c}] (equation `{info['eqs'][eid].human}`, period {r // neq}, terminal={terminal}"
-            f"{', plan=' + str(plan_spec) if plan_spec else ''}) is not the derivative of eval_func",
-            dict({"source": spec_source(mm.spec), "assign": mm.spec["values"], "periods": nper, "terminal": terminal,
-                  "flat": bool(mm.spec.get("flat", False)), "plan": plan_spec or None,
-                  "solve_first": bool(mm.spec.get("stable", False))},
-                 **({"context_src": mm.spec["context_src"]} if mm.spec.get("context_src") else {})),
-            float(J[r, c]), float(W[r, c]),
-            "m.simulate(db, span, method='stacked_time', terminal=..., plan=PlanSimulate with the listed operations) -> "
-            "evaluator.eval_jacob vs central differences of eval_func"))
+    # The evaluator (and its terminator) is a stateful object used for a whole Newton run: eval_jacob is called SEVERAL
+    # times on the same object, at different points; every call must return the derivative of eval_func at ITS point.
+    shifts_used = list(point_shifts) if point_shifts is not None else _draw_point_shifts(rng, mm.spec)
+    points = [("call", g0 + np.array([sh * max(abs(v), 0.5) for v in g0])) for sh in shifts_used]
+    for call, (tag, g) in enumerate(points):
+        try:
+            f0 = F(g)
+            with quiet():
+                J = np.array(cap["eval_jacob"](g, data).toarray(), dtype=float)
+        except Exception:  # noqa
+            return
+        if not np.all(np.isfinite(f0)) or not np.all(np.isfinite(J)):
+            if call == 0:
+                return
+            continue
+        try:
+            arr = np.array(data, dtype=float)
+            for eid in info["teids"]:
+                t = info["trees"][eid]
+                if t == ("user",):
+                    continue
+                toks = tree_vars(t)
+                for c in range(base, base + nper):
+                    num_eval(t, {(q, s): float(arr[q, s + c]) for (q, s) in toks}, margin=0.08)
+        except (Inadmissible, IndexError, OverflowError, ZeroDivisionError, ValueError):
+            # not an admissible point (domain edge or near a kink): nothing is demanded of THIS call, but it has been
+            # made - the later calls on the same evaluator must still be right
+            if call == 0 and point_shifts is None and not mm.spec.get("stable"):
+                return
+            continue
+        W = np.zeros_like(J)
+        for i in range(len(g)):
+            h = 1e-6 * max(1.0, abs(g[i]))
+            gp = g.copy(); gp[i] += h; gm = g.copy(); gm[i] -= h
+            W[:, i] = (F(gp) - F(gm)) / (2 * h)
+        F(g)
+        info_counts["stacked_models" if call == 0 else "stacked_later_calls"] = \
+            info_counts.get("stacked_models" if call == 0 else "stacked_later_calls", 0) + 1
+        info_counts["cells"] += J.size
+        if not _fd_close(J, W):
+            r, c = np.unravel_index(int(np.argmax(np.abs(J - W))), J.shape)
+            neq = len(info["teids"])
+            eid = info["teids"][r % neq]
+            fails.append(Failure(
+                f"stacked:{terminal}{':plan' if plan_spec else ''}{':later-call' if call else ''}:{_culprit(info['trees'][eid])}",
+                f"stacked-time Jacobian entry [{r},{c}] (equation `{info['eqs'][eid].human}`, period {r // neq}, terminal={terminal}"
+                f"{', plan=' + str(plan_spec) if plan_spec else ''}; call number {call + 1} of eval_jacob on the same evaluator, "
+                f"points = initial guess shifted by {shifts_used[:call + 1]} x max(|v|, 0.5)) is not the derivative of eval_func",
+                dict({"source": spec_source(mm.spec), "assign": mm.spec["values"], "periods": nper, "terminal": terminal,
+                      "flat": bool(mm.spec.get("flat", False)), "plan": plan_spec or None,
+                      "solve_first": bool(mm.spec.get("stable", False)), "point_shifts": shifts_used[:call + 1],
+                      "data_seed": data_seed},
+                     **({"context_src": mm.spec["context_src"]} if mm.spec.get("context_src") else {})),
+                float(J[r, c]), float(W[r, c]),
+                "m.simulate(db, span, method='stacked_time', terminal=..., plan=PlanSimulate with the listed operations) -> "
+                "evaluator.eval_jacob vs central differences of eval_func, at the initial guess and then at the shifted points, "
+                "all on the same evaluator object"))
+            return
 
 
-def gen_stable_spec(rng) -> dict:
+def _draw_point_shifts(rng, spec) -> list:
+    """relative shifts of the whole vector of unknowns for the successive calls on the same evaluator (the first one is
+    the initial guess itself, except for some of the solved models): alternating directions, so that occasionally binding
+    terms (maximum) are met on one branch first and on the other afterwards, in either order"""
+    if not spec.get("stable"):
+        return [0.0] + [rng.choice([-1, 1]) * rng.choice([0.125, 0.25, 0.375, 0.5]) for _ in range(rng.choice([0, 1, 1, 2]))]
+    def amount(sign):
+        return rng.choice([0.5, 0.75, 1.0]) if sign > 0 else -rng.choice([0.25, 0.375, 0.5])
+    sg = rng.choice([-1, 1])
+    first = 0.0 if rng.random() < 0.4 else amount(-sg)
+    return [first] + [amount(sg * (-1) ** i) for i in range(rng.choice([1, 2, 2, 3]))]
+
+
+def gen_stable_spec(rng, obc=False) -> dict:
     """a small model with a known steady state x = m (so that it can be solved and simulated with terminal='first_order')"""
     n = rng.randint(1, 3)
     xs = [f"x{i}" for i in range(n)]
@@ -1372,19 +1507,29 @@ def gen_stable_spec(rng) -> dict:
         nl = rng.choice([f"0.125*({o} - {means[o]!r})*({x}[-1] - {means[x]!r})",
                          f"0.25*(sqrt({o}/{means[o]!r}) - 1)", f"0.125*(maximum({o}, p0) - {means[o]!r})",
                          f"0.125*log({o}[+1]/{means[o]!r})", f"0.0625*(({o}/{means[o]!r})^2 - 1)"])
+        if obc and (i == 0 or rng.random() < 0.5):
+            # occasionally binding term: the ONLY lead of this equation sits inside maximum(), whose derivative is exactly
+            # zero on the inactive branch (kink constant c on either side of the steady state, 0.125-0.19 away from it)
+            c = means[o] + rng.choice([-1, 1]) * rng.choice([0.125, 0.15625, 0.1875])
+            at_ss = max(means[o], c)
+            term = rng.choice([f"{b!r}*(maximum({o}[+1], {c!r}) - {at_ss!r})",
+                               f"{b!r}*(maximum({o}[+1] - {c!r}, 0) - {at_ss - c!r})",
+                               f"{b!r}*(maximum(2*{o}[+1], {2 * c!r}) - {2 * at_ss!r})"])
+            teqs.append(f"{x} = {1 - a!r}*{means[x]!r} + {a!r}*{x}[-1] + {term} + e{i}")
+            continue
         teqs.append(f"{x} = {1 - a - b!r}*{means[x]!r} + {a!r}*{x}[-1] + {b!r}*{x}[{lead:+d}] + {nl} + e{i}")
     values = {x: (means[x], 1.0 if x in logs else 0.0) for x in xs}
     values["p0"] = 0.5
     return {"xs": xs, "ps": ["p0"], "ys": [], "logs": logs, "teqs": teqs, "meqs": [], "values": values, "flat": True,
-            "stable": True}
+            "stable": True, "obc": bool(obc)}
 
 
 def falsify_terminal(ctx, fails, counts):
     """stacked-time Jacobian including the terminal-condition correction (fords/terminators.py)"""
     rng = ctx.rng
     done = 0
-    for _ in range(ctx.scale(16, 300)):
-        spec = gen_stable_spec(rng)
+    for _i in range(ctx.scale(16, 300)):
+        spec = gen_stable_spec(rng, obc=(_i % 2 == 1))
         try:
             m = build_model(spec)
             with quiet():
@@ -1398,7 +1543,8 @@ def falsify_terminal(ctx, fails, counts):
             continue
         mm = SimpleNamespace(spec=spec, m=m, info=info, rho=None, arr=arr, off=off)
         before = counts["stacked_models"]
-        falsify_stacked(mm, rng, fails, counts, force_terminal="first_order")
+        for _ in range(4 if spec.get("obc") else 1):
+            falsify_stacked(mm, rng, fails, counts, force_terminal="first_order")
         # the same model under simulation plans: exogenized points (often in the last simulated period) take spots out of
         # the unknowns, endogenized shocks add some: the terminal-condition columns must follow
         for _ in range(ctx.scale(2, 3)):
@@ -1653,6 +1799,22 @@ def falsify(ctx, hints):
             break
     for mm in models[: ctx.scale(50, 1200)]:
         falsify_steady(mm, fails, counts)
+    # steady plans fixing a subset of the levels and/or of the changes (asymmetric): the columns kept from the full
+    # Jacobian [all levels | all changes] must be those of the unknowns [iterated levels | iterated changes]
+    try:
+        wm = build_model(STEADY_WITNESS)
+        winfo = model_info(wm)
+        warr, woff = steady_data(wm, winfo)
+        wmm = SimpleNamespace(spec=STEADY_WITNESS, m=wm, info=winfo, rho=None, arr=warr, off=woff)
+        for _ in range(ctx.scale(14, 120)):
+            falsify_steady(wmm, fails, counts, plan_spec=gen_steady_plan_spec(rng, STEADY_WITNESS["xs"]))
+    except HarnessError:
+        raise
+    except Exception as e:  # noqa
+        counts.setdefault("witness_errors", []).append(f"{type(e).__name__}: {e}"[:120])
+    for mm in models[: ctx.scale(60, 1200)]:
+        if len(mm.spec["xs"]) + len(mm.spec["ys"]) >= 2:
+            falsify_steady(mm, fails, counts, plan_spec=gen_steady_plan_spec(rng, mm.spec["xs"], mm.spec["ys"]))
     for mm in models[: ctx.scale(50, 1200)]:
         falsify_stacked(mm, rng, fails, counts, plan_spec="random" if rng.random() < 0.4 else None)
     operand_grid_checks(ctx, fails, counts)
@@ -1700,7 +1862,7 @@ def replay(ctx, failure: dict):
         if key is None:
             pass
         elif key.startswith("steady"):
-            falsify_steady(mm, fails, counts)
+            falsify_steady(mm, fails, counts, plan_spec=inp.get("steady_plan"))
         elif key.startswith("stacked"):
             if inp.get("terminal") == "first_order":
                 try:
@@ -1710,9 +1872,10 @@ def replay(ctx, failure: dict):
                         mm.m.solve()
                 except Exception:  # noqa
                     pass
-            for _ in range(6):
+            for _ in range(1 if inp.get("data_seed") is not None else 6):
                 falsify_stacked(mm, ctx.rng, fails, counts, force_terminal=inp.get("terminal"),
-                                plan_spec=inp.get("plan"), nper=inp.get("periods"))
+                                plan_spec=inp.get("plan"), nper=inp.get("periods"),
+                                point_shifts=inp.get("point_shifts"), data_seed=inp.get("data_seed"))
         else:
             falsify_systemize(mm, fails, counts)
     finally:
